@@ -113,6 +113,7 @@ const BY_COMPOUND: &[u8] = &[
 ];
 
 fn beside_parse<'a, P: RtcpPacketParser<'a>>(o: &Obs, b: &'a [u8]) {
+    crate::ambient::tick();
     if !o.beside {
         return;
     }
@@ -138,6 +139,8 @@ fn beside_bytes(bit: u32) -> &'static [u8] {
 
 /// Between two steps of an iterator of ours: the bystander walks its own views.
 fn beside_iter(o: &Obs) {
+    // also a call boundary for the seeded second party (ambient.rs)
+    crate::ambient::tick();
     if !o.beside {
         return;
     }
